@@ -180,6 +180,19 @@ def spec_header(model, mid, members):
     return list(struct.pack("<HHI", model["preamble"], mid, size - 8))
 
 
+def rand_grown_iface(r, big=False):
+    """an interface with a struct that is contained in another one and whose last member - one with a default value that is
+    not zero - was added after the interface had been generated once"""
+    for _ in range(200):
+        m = rand_iface(r, big)
+        used = {t[7:] for _, mem in m["structs"] for _, t, _ in mem if t.startswith("struct:")} | {t[7:] for _, _, mem in m["msgs"] for _, t, _ in mem if t.startswith("struct:")}
+        ok = [sn for sn, mem in m["structs"] if sn in used and len(mem) >= 2 and not mem[-1][1].startswith("struct:") and mem[-1][2] not in (None, "0", "false")]
+        if ok:
+            m["grown_struct"] = r.choice(ok)
+            return m
+    return m
+
+
 def rand_iface(r, big=False):
     """interface for C12/C13: structs nested up to depth 4, all primitive types, defaults at any level"""
     import genlib
@@ -214,7 +227,17 @@ def rand_iface(r, big=False):
                 t = r.choice(prim)
                 mem.append(("f%d" % j, t, rand_default(r, t) if r.random() < 0.6 else None))
         msgs.append(("Msg%d%s" % (i, genlib.camel(r, 1)), mid, mem))
-    return dict(kind="proto", backend="proto", structs=structs, msgs=msgs, preamble=r.choice([0xDEAD, 0xBEEF, 0xAAAA, 0x0100, 0x0000, 0xFFFF, r.randrange(65536)]),
+    extra = {}
+    if msgs and r.random() < 0.3:
+        # a message the script defined twice, the second time with the id that counts
+        mn_ = r.choice(msgs)[0]
+        extra["redefined"] = {mn_: r.choice([x for x in (1, 2, 3, 77, 4096, 65000) if x not in ids])}
+    used = {t[7:] for _, mem in structs for _, t, _ in mem if t.startswith("struct:")} | {t[7:] for _, _, mem in msgs for _, t, _ in mem if t.startswith("struct:")}
+    growable = [sn for sn, mem in structs if sn in used and len(mem) >= 2]
+    if growable and r.random() < 0.35:
+        # a struct contained in others that got its last member after the interface had been generated once (same objects)
+        extra["grown_struct"] = r.choice(growable)
+    return dict(kind="proto", backend="proto", structs=structs, msgs=msgs, **extra, preamble=r.choice([0xDEAD, 0xBEEF, 0xAAAA, 0x0100, 0x0000, 0xFFFF, r.randrange(65536)]),
                 name=r.choice(["ExampleIF", "Foo", "Proto" + genlib.camel(r, 1)]), ns=r.choice(["ExampleIO", "NS", "a::b"]) if False else r.choice(["ExampleIO", "NS"]),
                 enums=[("Kind%d" % k, [("A", 0), ("B", 5)]) for k in range(r.randint(0, 2))], defines=[("MAXLEN", 16)] if r.random() < 0.5 else [])
 
